@@ -719,6 +719,18 @@ def prepare_spec(scenario):
     m = scenes.find(spec, meta["algo_id"])
     m["checkpoint"] = False
     m["every"] = 0
+    # knobs applied to configurations the CLI emitted (operator options only, the model is untouched)
+    ko = recipe.get("op_knobs") or {}
+    for op in m.get("operators", []):
+        t = str(op.get("type", ""))
+        if ko.get("disable_adaptation"):
+            op["disable_adaptation"] = True
+        if ko.get("target_acc") and "HMC" not in t:
+            op["target_acceptance_probability"] = ko["target_acc"]
+        if "GMRF" in t and ko.get("gmrf_scaler") is not None:
+            op["scaler"] = ko["gmrf_scaler"]
+        if t.endswith("SlidingWindowOperator") and ko.get("width_scale"):
+            op["width"] = op.get("width", 0.5) * ko["width_scale"]
     return spec, meta, m
 
 
@@ -895,7 +907,9 @@ def generate(seed, index, tier):
         transitions = k.randint(20, 120)
     else:
         sub, args = k.choice(CLI_SCENES)
-        recipe = {"kind": "cli", "sub": sub, "args": args, "iterations": 1, "freq": 1000, "log_every": k.choice([1, 2, 5]), "logger": k.bernoulli(0.7)}
+        recipe = {"kind": "cli", "sub": sub, "args": args, "iterations": 1, "freq": 1000, "log_every": k.choice([1, 2, 5]), "logger": k.bernoulli(0.7),
+                  "op_knobs": {"disable_adaptation": k.bernoulli(0.2), "target_acc": k.choice([None, None, 0.1, 0.6]),
+                               "gmrf_scaler": k.choice([None, None, 1.0, 1.0, 1.3, 5.0]), "width_scale": k.choice([None, None, 0.1, 4.0])}}
         transitions = k.randint(15, 80) if sub == "mcmc" else k.randint(8, 25)
     pol = k.weighted(["weights", "weights", "single", "roundrobin", "bursts"], [4, 0, 2, 2, 1])
     ops_policy = {"kind": pol}
